@@ -1,0 +1,19 @@
+//go:build verif && unix
+
+package display
+
+import "os"
+
+// verifResize, when set, receives the channel on which the resize
+// watcher expects SIGWINCH notifications, so that a simulator can
+// deliver resize events itself, and the watcher's done channel.
+var verifResize func(sig chan os.Signal, done chan bool)
+
+func verifResizeChan(sig chan os.Signal, done chan bool) {
+	if verifResize != nil {
+		verifResize(sig, done)
+	}
+}
+
+// VerifSetResizeHook installs the resize channel hook.
+func VerifSetResizeHook(f func(sig chan os.Signal, done chan bool)) { verifResize = f }
